@@ -187,7 +187,6 @@ def c23_context_ns(ns_ctx: str, ns_kw: str, n: str, use_kw: bool, use_async: boo
     env_c = Environment(loader=CachingNS(items, namespace_key="ns", capacity=3))
     env_p = Environment(loader=NSLoader(items))
     # prefill with the other namespace
-    request(env_c, n, ns_kw if not use_kw else None, False, None, via_context=False) if False else None
     request(env_c, n, ns_kw, False, None)
     ctx_c = RenderContext(env_c.from_string(""), globals={"ns": ns_ctx})
     ctx_p = RenderContext(env_p.from_string(""), globals={"ns": ns_ctx})
